@@ -1,14 +1,18 @@
 #!/bin/sh
-# usage: tools/try_mutant.sh <patch.diff> <ID> [<ID>...]   — applies a patch to /repo, runs the quick checks, always reverts.
-# Expects each listed check to report VIOLATION (exit 1). Prints a one-line verdict per check.
+# usage: tools/try_mutant.sh <patch.diff> <ID> [<ID>...]
+# Tries a patch to lopdf against the quick checks WITHOUT touching /repo: a scratch worktree of /repo's HEAD gets the
+# patch, the harness is built against it (cargo --config paths=[...]) into its own target directory, findings and
+# evidence go to a scratch output directory. Expects each listed check to report VIOLATION (exit 1).
+# Scratch worktree is removed afterwards; the scratch target directory /tmp/vh-mut-target is kept between calls
+# (remove it when done: rm -rf /tmp/vh-mut-target /tmp/vh-mut-out).
 P=$(readlink -f "$1"); shift
-cd /repo || exit 2
-if ! git diff --quiet; then echo "repo working tree not clean"; exit 2; fi
-git apply "$P" || { echo "patch does not apply: $P"; exit 2; }
-trap 'git -C /repo checkout -- . ' EXIT INT TERM
+W=/tmp/vh-mut-wt-$$
+git -C /repo worktree add -q --detach $W HEAD || exit 2
+trap 'git -C /repo worktree remove --force '$W EXIT INT TERM
+git -C $W apply "$P" || { echo "patch does not apply: $P"; exit 2; }
 cd /verif
 for id in "$@"; do
-  out=$(VERIF_OUT_DIR=/tmp/vh-mut-out ./check "$id" --tier quick 2>&1); rc=$?
+  out=$(VERIF_LOPDF_PATH=$W VERIF_TARGET=/tmp/vh-mut-target VERIF_OUT_DIR=/tmp/vh-mut-out ./check "$id" --tier ${TIER:-quick} 2>&1); rc=$?
   n=$(printf '%s\n' "$out" | grep -c '^VIOLATION')
-  echo "MUTANT $(basename "$P") check=$id exit=$rc violations=$n $(printf '%s\n' "$out" | grep -m1 'signature:' )"
+  echo "MUTANT $(basename $(dirname "$P"))/$(basename "$P") check=$id exit=$rc violations=$n $(printf '%s\n' "$out" | grep -m1 'signature:' )"
 done
